@@ -27,10 +27,10 @@ func main() {
 	dh.Generate(r, 2, []int{1, 2, 3}, dh.NCfg)
 	if r.Thorough() {
 		dh.PrlSweep(r, 2, 4)
-		dh.Exhaustive(r, "hist", 2, 4, 14)
+		dh.Exhaustive(r, "hist", 2, 4, 16)
 		dh.Exhaustive(r, "histf", 2, 5, 8)
 	} else {
 		dh.PrlSweep(r, 2, 3)
-		dh.Exhaustive(r, "hist", 2, 3, 14)
+		dh.Exhaustive(r, "hist", 2, 3, 16)
 	}
 }
